@@ -947,6 +947,8 @@ func runC06(c *Ctx) {
 
 	// R06.2 pseudo-match segregation
 	checkPseudoMatchSegregation(c, p)
+	// R03.4b every retained candidate (Copyright matches included) is returned
+	checkResultIsRetained(c, p)
 }
 
 // checkFlagsSurviveRefill: R06.3. Every boolean loop-carried variable of the rune loop must enter the
@@ -1122,6 +1124,34 @@ func runC11(c *Ctx) {
 			}
 		}
 		c.R.Check(uses, "R11.2", "Normalize tokenises with the same tokenizeStream as Match", p.Pos(nz.Pos()), "calls tokenizeStream", "Normalize does not use the tokenizer Match uses: their notion of words and lines can differ")
+		// ... on the very bytes it was given (Match tokenises its input unchanged - R08.2 - so any preprocessing here
+		// makes the two see different texts), and match hands its reader to the tokenizer as it is
+		for _, call := range core.CallsIn(nz) {
+			if call.Common().StaticCallee() != ts {
+				continue
+			}
+			okIn, why := false, "the reader given to the tokenizer is not bytes.NewReader(in) of the unmodified argument"
+			arg := call.Common().Args[0]
+			if mi, isMI := arg.(*ssa.MakeInterface); isMI {
+				arg = mi.X
+			}
+			if rc, isCall := arg.(*ssa.Call); isCall && core.StaticCalleeName(&rc.Call) == "bytes.NewReader" {
+				if core.Unspill(rc.Call.Args[0]) == ssa.Value(nz.Params[1]) {
+					okIn, why = true, "tokenizeStream(bytes.NewReader(in), ...) with in the parameter"
+				}
+			}
+			c.R.Check(okIn, "R11.2", "Normalize tokenises exactly the bytes it was given", p.Pos(call.Pos()), why, why+": Normalize preprocesses its input (line endings, trimming, ...) while Match does not, so the words and lines of the normalised text differ from those Match reports for the original")
+		}
+		if m := p.Func(v2pkg, "(*Classifier).match"); m != nil && len(m.Params) >= 2 {
+			for _, call := range core.CallsIn(m) {
+				if call.Common().StaticCallee() != ts {
+					continue
+				}
+				okIn := core.Unspill(call.Common().Args[0]) == ssa.Value(m.Params[1])
+				c.R.Check(okIn, "R11.2", "match hands its reader to the tokenizer as it is", p.Pos(call.Pos()), "tokenizeStream(in, ...) with in the parameter",
+					"the tokenizer reads from a wrapped or limited reader, not from the reader match was given: Match sees a different (shorter, filtered) text than Normalize writes out")
+			}
+		}
 		e := eng.NewExplorer(p, matchScope...)
 		ret := e.Run(nz, provParams(nz, eng.Shared, eng.Input))
 		fresh := len(ret) > 0 && ret[0]&^eng.Fresh == 0
@@ -2244,6 +2274,21 @@ func runC17(c *Ctx) {
 		}
 		c.R.Check(n > 0 && okS, "R17.4", "TargetRange starts at the Offset of token TargetStart of the first range", p.Pos(tr.Pos()), "Tokens[m[0].TargetStart].Offset", "the start of the byte range is not the Offset of the candidate's first target token")
 		c.R.Check(n > 0 && okE, "R17.4", "TargetRange ends at Offset + len(Text) of token TargetEnd-1 of the last range", p.Pos(tr.Pos()), whyE, whyE)
+	}
+
+	// R17.2b the candidates leave FindPotentialMatches in the order the pipeline produced them: no other sort
+	if fpm := p.Func(ssPkg, "FindPotentialMatches"); c.R.Anchor(fpm != nil, "searchset.FindPotentialMatches") {
+		oa := eng.NewOrderAnalysis(p, []*ssa.Function{fpm})
+		oa.FindSorts()
+		bad := ""
+		for _, srt := range oa.Sorts {
+			if srt.Cmp != nil && srt.Cmp.Undecided == "" && srt.Cmp.FirstKey == "TargetStart" && srt.Cmp.FirstDir == "asc" {
+				continue
+			}
+			bad = p.Pos(srt.Call.Pos()) + " (" + firstKeyDesc(srt.Cmp) + ")"
+		}
+		c.R.Check(bad == "", "R17.2", "FindPotentialMatches does not reorder the candidates by anything but target position", p.Pos(fpm.Pos()), fmt.Sprintf("%d sort(s) in FindPotentialMatches, none by another key", len(oa.Sorts)),
+			"the candidate list is sorted at "+bad+": callers receive candidates whose target positions go backwards")
 	}
 
 	// R17.3 the tokenised string is the string offsets are applied to
